@@ -207,7 +207,18 @@ func (db *DB) ScanPrefix(prefix []byte, errOut *error) iter.Seq[kv.Entry] {
 	sstables := db.currentSSTables()
 	verifhook.Point("dkv.read.between_snapshots", db)
 	iters := []iter.Seq[kv.Entry]{db.mtables.ScanPrefix(prefix, errOut), sstables.ScanPrefix(prefix, errOut)}
-	return kv.MergeEntries(iters)
+	// Delete markers from the memtables win the merge against older versions and
+	// are dropped only afterwards.
+	return func(yield func(kv.Entry) bool) {
+		for entry := range kv.MergeEntries(iters) {
+			if entry.IsDelete() {
+				continue
+			}
+			if !yield(entry) {
+				return
+			}
+		}
+	}
 }
 
 // Checkpoint initiates a DB checkpoint associated with the caller's provided
